@@ -84,10 +84,12 @@ def mk_gmm(I, tag="", C=Cc, D=Dd, gnorms="cached", thr="scalar", trainer="ml", u
     return m
 
 
-def mk_data(name="x", N=Nn, D=Dd, kind="numpy", ndim=2):
+def mk_data(name="x", N=Nn, D=Dd, kind="numpy", ndim=2, intdata=False):
+    """intdata: samples stored in an integer dtype of the caller's choice (uint8 pixels, int16 audio, ...)"""
+    kw = dict(dtype="int", narrow=True) if intdata else {}
     if ndim == 1:
-        return input_arr(name, (D,), kind)
-    return input_arr(name, (N, D), kind)
+        return input_arr(name, (D,), kind, **kw)
+    return input_arr(name, (N, D), kind, **kw)
 
 
 def mk_stats(I, tag="", C=Cc, D=Dd):
